@@ -98,6 +98,8 @@ def props_of(finding, trace, sc):
         return {"C13"}
     if base in ("attrs", "sideeffect", "args"):
         return {"C19"}
+    if base == "foreign":
+        return {"C19", "C13", "C08"}
     if base == "read":
         return {"C20"}
     if base == "work":
